@@ -350,9 +350,10 @@ line:
 			newloc.file = strchr(tok.lit, '"') + 1;
 			*strchr(newloc.file, '"') = '\0';
 			scan(&tok);
+			/* flags of a gcc line marker */
+			while (tok.kind == TNUMBER)
+				scan(&tok);
 		}
-		while (tok.kind == TNUMBER)
-			scan(&tok);
 		scansetloc(newloc);
 	} else if (strcmp(name, "error") == 0) {
 		error(&tok.loc, "#error directive is not implemented");
